@@ -76,8 +76,8 @@ PROPS = {
     },
     "C09": {
         "suites": [("gw", "churn"), ("gw", "query"), ("gw", "mixed")],
-        "theorems_carry": "use-count bookkeeping under well-formed use: count >= 0, waiting for eviction iff count = 0, timerqueue.Add never on a queued element, a new user cancels the eviction, the last release schedules it; the one-step invariant lifted to every operation sequence of an entry (count_run); the eviction timer removes an entry iff it is queued and still unused and releases the event subscription iff it had one (evict_iff, used_entry_stays)",
-        "correspondence_only": "that every user releases exactly once and subscribe precedes get: lockstep (count, mqSub in every snapshot, S/U/Q order) + monitors incl. gauges at drain. Known findings D4, D13.",
+        "theorems_carry": "use-count bookkeeping under well-formed use: count >= 0, waiting for eviction iff count = 0, timerqueue.Add never on a queued element, a new user cancels the eviction, the last release schedules it; the one-step invariant lifted to every operation sequence of an entry (count_run); the eviction timer removes an entry iff it is queued and still unused and releases the event subscription iff it had one (evict_iff, used_entry_stays); a subscriber is released from a resource at most once (released_at_most_once, over the pure Entry.release the model runs)",
+        "correspondence_only": "that every user takes and gives back its use at the right moments and subscribe precedes get: lockstep (count, mqSub in every snapshot, S/U/Q order) + monitors incl. gauges at drain. Known finding D13.",
         "assumptions": ["eviction is fired by the harness (VerifFlushEvictions) instead of the 5 s timer"],
     },
     "C10": {
